@@ -93,6 +93,26 @@ def run(tier, seed):
                 rep.violation(f"unexpected result at recursion depth {depth} in the debug profile", {"program": probe.format(d=depth), "profile": "debug", "observed": text})
     except InfraError as e:
         rep.notes.append("debug profile probe skipped: " + str(e)[:200])
+    # (5) recursion THROUGH traps, far beyond the limit, on the real entry point (release, main thread): the protected body of a
+    # trap is not a tail position - every level costs depth - so the outcome must be the stackoverflow signal, never a dead process
+    try:
+        exe_r = build_driver("release")
+        trap_probes = [
+            "(block (defun countdown (n) \"\" (try (if (= n 0) 'done (countdown (substract n 1))) (catch stackoverflow (lambda (e) (list 'caught 'stackoverflow))))) (countdown {n}))",
+            "(block (defun dig (n) \"\" (eval (trap (if (= n 0) (signal 'bottom) (dig (substract n 1))) (list 'trapped (. *trapped-signal* 'kind))))) (dig {n}))",
+            "(block (defun dig2 (n) \"\" (eval (trap (if (= n 0) 'bottom (dig2 (substract n 1))) 'stackoverflow-was-trapped))) (dig2 {n}))",
+        ]
+        for tp in trap_probes:
+            for n in ((100000,) if tier == "quick" else (3000, 100000, 400000)):
+                rc, out, err = sh([exe_r, "--expression", tp.format(n=n)], timeout=300)
+                rep.evaluations += 1
+                text = (out + err).strip()
+                if rc not in (0, 1) or "overflowed its stack" in text or "panicked" in text:
+                    rep.violation(f"recursion {n} deep through traps killed the process (exit {rc}) instead of signalling stackoverflow", {"program": tp.format(n=n), "profile": "release", "how": "picilisp --expression '...'", "observed": text[-300:]})
+                elif "stackoverflow" not in text:
+                    rep.violation(f"recursion {n} deep through traps neither signalled stackoverflow nor died: {text[:120]}", {"program": tp.format(n=n), "profile": "release", "observed": text[-300:]})
+    except InfraError as e:
+        rep.notes.append("release trap probe skipped: " + str(e)[:200])
     if not rep.violations:
         report_disagreements(rep, sets, "evaluator depth/tail behaviour")
     rep.nontrivial = len(set(small + deep))
